@@ -55,8 +55,6 @@ pub trait Math: Sized {
     spec fn dim_spec(&self) -> nat;
     /// content of a vector
     spec fn vv(v: &Self::Vector) -> Seq<real>;
-    /// number of entries of an eigenvalue vector
-    spec fn eig_len(v: &Self::EigValues) -> nat;
     fn dim(&self) -> (r: usize) ensures r as nat == self.dim_spec();
     /// A-math (box_array): in /repo a default method of trait Math: `vec![0f64; self.dim()]`, filled by
     /// `write_to_slice(array, ..)`, `.into()` -- a boxed slice of length dim holding the values of `array`
@@ -64,9 +62,6 @@ pub trait Math: Sized {
         ensures final(self).dim_spec() == old(self).dim_spec(),
                 r@.len() == old(self).dim_spec(),
                 fvals(r@) == Self::vv(array);
-    /// A-math (eigs_as_array): CpuMath copies the column out, one entry per eigenvalue
-    fn eigs_as_array(&mut self, source: &Self::EigValues) -> (r: Box<[F]>)
-        ensures final(self).dim_spec() == old(self).dim_spec(), r@.len() == Self::eig_len(source);
     fn sq_norm_sum(&mut self, x: &Self::Vector, y: &Self::Vector) -> (r: F)
         ensures final(self).dim_spec() == old(self).dim_spec();
 }
@@ -119,27 +114,27 @@ impl<T> VxIntoVec<T> for Box<[T]> {
         ensures r@ == self@
     { unimplemented!() }
 }
-/// `std::iter::repeat_n(x, n)` and R9.method `Vec::extend` -> `vx_extend`: n copies of x are appended
-pub struct RepeatN<T> { pub x: T, pub n: usize }
-pub fn repeat_n<T>(x: T, n: usize) -> (r: RepeatN<T>) ensures r.x == x, r.n == n { RepeatN { x, n } }
-pub trait VxExtend<T> {
-    fn vx_extend(&mut self, it: RepeatN<T>);
-}
-impl<T> VxExtend<T> for Vec<T> {
-    #[verifier::external_body]
-    fn vx_extend(&mut self, it: RepeatN<T>)
-        ensures final(self)@.len() == old(self)@.len() + it.n,
-                forall|i: int| 0 <= i < old(self)@.len() ==> final(self)@[i] == old(self)@[i]
-    { unimplemented!() }
-}
-/// `f64::NAN` (rule R2 turns the type token into `F`): the unspecified real nan_r() of model R
-impl F {
-    pub exec const NAN: F ensures Self::NAN.r() == nan_r() { F { v: Ghost(nan_r()) } }
-}
-
 // ------------------------------------------------------------------------------------------
 // dynamics façade
 // ------------------------------------------------------------------------------------------
+/// trait Point of src/dynamics/hamiltonian.rs:127-142, the members the statistics read, each with the contract text
+/// of unit `leapfrog` (which EXTRACTS this trait and verifies the default body of `energy_error` from the real text;
+/// here the default body is a re-statement of hamiltonian.rs:134-136, checked against the same contract).
+/// Kept in the prelude so that a failing impl method is reported under the impl's own obligation name.
+/// (No `SamplerStats<M>` supertrait here: `TransformedPoint::extract_stats` calls Point methods, and Verus rejects the
+/// resulting cycle between the two trait impls.)
+pub trait Point<M: Math>: Sized {
+    spec fn pview(&self) -> StateView;
+    fn index_in_trajectory(&self) -> (r: i64) ensures r as int == self.pview().idx;
+    fn energy(&self) -> (r: F) ensures r.r() == self.pview().energy;
+    fn logp(&self) -> (r: F) ensures r.r() == self.pview().logp;
+    fn energy_error(&self) -> (r: F)
+        ensures r.r() == self.pview().energy - self.pview().e0
+    {
+        self.energy() - self.initial_energy()
+    }
+    fn initial_energy(&self) -> (r: F) ensures r.r() == self.pview().e0;
+}
 #[verifier::external_body]
 #[verifier::reject_recursive_types(M)]
 #[verifier::reject_recursive_types(P)]
